@@ -7,7 +7,7 @@ CLAIM = dict(
     note="Trusted: Coq kernel, extraction, driver, hand model (validated by the correspondence), issubclass table of the generated classes, the harness's guarded hook fixing set-iteration order to registration order (OVLD_VERIF). Reading adopted: a Python binding TypeError raised by the generated entry point for a call shape no method accepts counts as the 'no applicable method' error. Tiebreaks come from the registration model (defs_register). Theorems assume the level computation did not fail (candidates = Ok), which the correspondence observes on every static case.",
     technique="Coq proof (Kahn-layer monotonicity, sort/_pull lemmas, spec vs model) + differential correspondence on generated programs", design="6 C02")
 
-THEOREMS = ["C02_no_method", "C02_winner_complete", "C02_winner_maximal", "C02_exact_refuted"]
+THEOREMS = ["C02_leaf_dominates", "C02_leaf_sort_key", "C02_leaf_arity", "C02_no_method", "C02_winner_complete", "C02_winner_maximal", "C02_exact_refuted"]
 ASSUMPTIONS = ["generated worlds satisfy the theorems' hypotheses (issubclass reflexive/antisymmetric): checked per world",
                "call shapes mixing keywords with omitted optional positionals are left to C03 (entry point)"]
 
@@ -45,10 +45,44 @@ def check_program(ctx, prog, stats, samples):
         samples.append({"defs": prog["defs"], "call": prog["calls"][0], "outcome": res[0]})
 
 
+SMALL_WORLDS = [
+    # A; B(A); C; D(B, C)   -- two unrelated registered ancestors, one with a further registered superclass
+    [{"kind": "plain", "bases": [], "meths": []}, {"kind": "plain", "bases": [0], "meths": []}, {"kind": "plain", "bases": [], "meths": []}, {"kind": "plain", "bases": [1, 2], "meths": []}],
+    # diamond A; B(A); C(A); D(B, C); E(D)
+    [{"kind": "plain", "bases": [], "meths": []}, {"kind": "plain", "bases": [0], "meths": []}, {"kind": "plain", "bases": [0], "meths": []}, {"kind": "plain", "bases": [1, 2], "meths": []}, {"kind": "plain", "bases": [3], "meths": []}],
+    # A; B; C(A, B); D(C); an ABC X with C registered
+    [{"kind": "plain", "bases": [], "meths": []}, {"kind": "plain", "bases": [], "meths": []}, {"kind": "plain", "bases": [0, 1], "meths": []}, {"kind": "plain", "bases": [2], "meths": []}, {"kind": "abc", "bases": [], "meths": [], "registers": [2]}],
+]
+
+
+def exhaustive_small(ctx, stats, samples):
+    """every set of 2-3 one-argument methods over every class of three small multiple-inheritance hierarchies x every
+    instantiable argument class (complete enumeration), plus a sample of two-argument pairs"""
+    import itertools
+    from ..world import World
+    for spec in SMALL_WORLDS:
+        w = World(spec)
+        classes = [0] + w.user_ids()
+        inst = [c for c in classes if w.instantiable(c)]
+        for k in (2, 3):
+            for combo in itertools.combinations(classes, k):
+                defs = [{"id": i, "pos": [[0, c]], "npos_req": 1, "kw": [], "prio": 0} for i, c in enumerate(combo)]
+                prog = {"spec": spec, "defs": defs, "calls": [{"pos": [c], "kw": {}} for c in inst]}
+                check_program(ctx, prog, stats, samples)
+                stats["exhaustive_programs"] += 1
+        pairs = list(itertools.product(classes, repeat=2))
+        for _ in range(25):
+            ms = ctx.rng.sample(pairs, 3)
+            defs = [{"id": i, "pos": [[0, a], [0, b]], "npos_req": 2, "kw": [], "prio": 0} for i, (a, b) in enumerate(ms)]
+            calls = [{"pos": [ctx.rng.choice(inst), ctx.rng.choice(inst)], "kw": {}} for _ in range(6)]
+            check_program(ctx, {"spec": spec, "defs": defs, "calls": calls}, stats, samples)
+
+
 def run(ctx):
-    stats = {"evaluations": 0, "nontrivial": set(), "impl_hist": collections.Counter(), "chain": 0, "kf01": 0, "programs": 0}
+    stats = {"exhaustive_programs": 0, "evaluations": 0, "nontrivial": set(), "impl_hist": collections.Counter(), "chain": 0, "kf01": 0, "programs": 0}
     samples = []
     n = 120 if ctx.quick() else 6000
+    exhaustive_small(ctx, stats, samples)
     for _ in range(n):
         prog = R.gen_program(ctx.rng)
         stats["programs"] += 1
@@ -57,7 +91,7 @@ def run(ctx):
             break
     return {"evaluations": stats["evaluations"], "distinct_nontrivial": len(stats["nontrivial"]),
             "rule": "random class worlds (plain/ABC/protocol, multiple inheritance) x 1-7 methods over 1-3 positions with differing arities, optional positionals, keyword-only typed parameters, priorities -1..1 and re-registered identical signatures x ~12 calls; a case (world, methods, call) is non-trivial when more than one method is registered; distinct by content",
-            "samples": samples, "programs": stats["programs"], "outcome_histogram": dict(stats["impl_hist"]),
+            "samples": samples, "programs": stats["programs"], "small_scope_programs_enumerated_completely": stats["exhaustive_programs"], "outcome_histogram": dict(stats["impl_hist"]),
             "calls_chain_applicable": stats["chain"], "deviations_attributed_to_KF-01": stats["kf01"],
             "traces_validated_against_impl": stats["evaluations"]}
 
